@@ -679,9 +679,11 @@ class StmtMixin:
             res = self.fresh_value(c.returns, "ret:" + tag) if c.returns is not None else VNone()
         renv = self.E.Env(parent=cenv)
         renv.vars["result"] = res
-        for cl in c.ensures:
+        for cl in list(c.ensures) + list(c.assumed_ensures):
             t = sub.truth(sub.ev(ast.parse(cl, mode="eval").body, renv))
             self.path.assume(t, check=False)
+        for cl in c.assumed_ensures:
+            self.ctx.assumptions_used.add(f"assumed (not checked against the body) postcondition of {c.name}: {cl}")
         self.path.assume(z3.BoolVal(True))
         return res
 
